@@ -90,9 +90,19 @@ def oracle(c):
             return f"{f!r}: na_action={na!r} raises {type(e).__name__} instead of ValueError"
         return f"{f!r}: na_action={na!r} was accepted"
     try:
-        used = [v for v in model_description(f).var_names if v in df.columns]
+        model_description(f)
     except Exception:
         return None
+    # the variables the formula uses, read off the TEXT (not asked of the implementation): identifiers and
+    # backquoted names that are columns, except names that occur only as the callee of a call
+    import re as _re
+    text = _re.sub(r"'[^']*'|\"[^\"]*\"", " ", f)
+    names = set(_re.findall(r"`([^`]*)`", text))
+    text = _re.sub(r"`[^`]*`", " ", text)
+    for m in _re.finditer(r"(?<![A-Za-z_0-9.])([A-Za-z_][A-Za-z_0-9]*)(?![A-Za-z_0-9])\s*(\()?", text):
+        if not m.group(2):
+            names.add(m.group(1))
+    used = [v for v in df.columns if v in names]
     incomplete = df[used].isna().any(axis=1).to_numpy() if used else np.zeros(len(df), dtype=bool)
     complete_df = df[~incomplete]
 
